@@ -363,3 +363,120 @@ def like_any(src, *alternatives):
 
 def src_of(node):
     return Src(" ".join(ast.unparse(node).split()))
+
+
+def bool_key(t):
+    """order-independent key of a test: and / or over sets of sub-keys, negations pushed to the leaves"""
+    from ..canon import positive
+
+    def key(x):
+        if isinstance(x, ast.BoolOp):
+            return ("and" if isinstance(x.op, ast.And) else "or", frozenset(key(v) for v in x.values))
+        return " ".join(ast.unparse(x).split())
+
+    return key(positive(t))
+
+
+def results_by_path(fn_node):
+    """[(path condition (one test: the conjunction of the decisions on the way, negations pushed to the leaves; None = unconditional), returned expression with the
+    temporaries of that path written out)] - one entry per path to a `return`. Independent of whether the function branches with if/else, early returns, a conditional
+    expression, or updates a temporary under a condition."""
+    from ..canon import negate, positive
+    from ..termform import path_exprs, subst
+
+    out = []
+    for conds, e, env in path_exprs(fn_node, lambda st: [st.value] if isinstance(st, ast.Return) and st.value is not None else []):
+        tests = [positive(t) if pol else negate(positive(t)) for t, pol in conds]
+        cond = None
+        for t in tests:
+            cond = t if cond is None else ast.BoolOp(op=ast.And(), values=[cond, t])
+        out.append((positive(cond) if cond is not None else None, subst(e, env)))
+    return out
+
+
+def call_args_by_path(fn_node, is_call, arg=lambda c: c.args[0] if c.args else None):
+    """[(path conditions [(test text, polarity)], argument expression with the temporaries of that path written out)] for every evaluation of a call selected by
+    `is_call` (a `*x` argument counts as x). Whether the argument was prepared by rebinding a name under an `if`, by a conditional expression or in a helper that
+    was written out does not matter."""
+    from ..canon import _own_nodes
+    from ..termform import path_exprs, subst
+
+    def pick(st):
+        out = []
+        for n in _own_nodes(st):
+            if isinstance(n, ast.Call) and is_call(n):
+                a = arg(n)
+                if a is not None:
+                    out.append(a.value if isinstance(a, ast.Starred) else a)
+        return out
+
+    res = []
+
+    def split(conds, e):
+        # (a temporary holding a conditional expression is two paths as well)
+        if isinstance(e, ast.IfExp):
+            t = " ".join(ast.unparse(e.test).split())
+            if (t, False) not in conds:
+                split(conds + [(t, True)], e.body)
+            if (t, True) not in conds:
+                split(conds + [(t, False)], e.orelse)
+        else:
+            res.append((conds, e))
+
+    for conds, e, env in path_exprs(fn_node, pick):
+        split([(" ".join(ast.unparse(t).split()), pol) for t, pol in conds], subst(e, env))
+    return res
+
+
+def zeroed_determinant(fn_node):
+    """CostFunction.goodness_of_fit: the cost is evaluated at the arguments with the last one (the determinant) replaced by 0.0 exactly when the determinant cost is on"""
+    seen = set()
+    for conds, e in call_args_by_path(fn_node, lambda c: isinstance(c.func, ast.Name) and c.func.id == "self" and len(c.args) == 1 and isinstance(c.args[0], ast.Starred)):
+        det = [pol for t, pol in conds if t == "self._add_determinant_cost"]
+        if not det or len(set(det)) != 1:
+            return False
+        t = " ".join(ast.unparse(e).split())
+        if t != ("args[:-1] + (0.0,)" if det[0] else "args"):
+            return False
+        seen.add(det[0])
+    return seen == {True, False}
+
+
+def alpha_expr(e):
+    """copy of an expression with the variables bound by its comprehensions / lambdas renamed _q1, _q2, ... in order of binding"""
+    import copy
+
+    e = copy.deepcopy(e)
+    ren = {}
+    for n in ast.walk(e):
+        if isinstance(n, ast.comprehension):
+            for t in ast.walk(n.target):
+                if isinstance(t, ast.Name) and t.id not in ren:
+                    ren[t.id] = "_q%d" % (len(ren) + 1)
+        elif isinstance(n, ast.Lambda):
+            for a in n.args.args:
+                if a.arg not in ren:
+                    ren[a.arg] = "_q%d" % (len(ren) + 1)
+    for n in ast.walk(e):
+        if isinstance(n, ast.Name) and n.id in ren:
+            n.id = ren[n.id]
+        elif isinstance(n, ast.arg) and n.arg in ren:
+            n.arg = ren[n.arg]
+    return e
+
+
+def optional_selection(paths, source, selected):
+    """paths: [(conds [(text, pol)], value expr)] of a quantity that must be `selected` when `source` is not None and None otherwise (`x = S; if x is not None: x = x[..]`,
+    `None if S is None else S[..]`, a helper doing the same ...). True when every path agrees and both cases occur."""
+    seen = set()
+    for conds, e in paths:
+        some = ((source + " is not None", True) in conds) or ((source + " is None", False) in conds)
+        none = ((source + " is None", True) in conds) or ((source + " is not None", False) in conds)
+        t = " ".join(ast.unparse(alpha_expr(e)).split())
+        if some and not none and t == selected:
+            seen.add("some")
+        elif none and not some and t in ("None", source):
+            seen.add("none")
+        else:
+            return False
+    return seen == {"some", "none"}
